@@ -383,11 +383,18 @@ class Interp(ExprMixin, LoopMixin, CallMixin):
             self.event('star-may-bind', node, callee=fi.short, param='*', star=star)
 
     def _eval_default(self, fi, expr):
+        """Parameter defaults are evaluated once, when the def statement runs: values produced here are shared by
+        every call."""
         frame = Frame(fi, fi.module)
         self.frames.append(frame)
+        self.in_default = getattr(self, 'in_default', 0) + 1
         try:
-            return self.eval(expr)
+            v = self.eval(expr)
+            if any(isinstance(n, ast.Call) for n in ast.walk(expr)):
+                v = v.with_tags({'def-time'}) if hasattr(v, 'with_tags') else v
+            return v
         finally:
+            self.in_default -= 1
             self.frames.pop()
 
     # ---------------------------------------------------------------- statements
